@@ -33,6 +33,16 @@ MATH_SAME = {"sin": 1, "cos": 1, "tan": 1, "asin": 1, "acos": 1, "atan": 1, "ata
              "ceil": 1, "floor": 1, "trunc": 1, "pow": 2}
 
 
+# library functions that compute exactly what an operator computes / that are known to differ from the IC10 instruction
+CALL_SEM = {"operator.add": ast.Add, "operator.sub": ast.Sub, "operator.mul": ast.Mult, "operator.truediv": ast.Div, "operator.mod": ast.Mod,
+            "operator.pow": ast.Pow, "pow": ast.Pow, "math.pow": ast.Pow, "operator.and_": ast.BitAnd, "operator.or_": ast.BitOr, "operator.xor": ast.BitXor,
+            "operator.lshift": ast.LShift, "operator.rshift": ast.RShift, "operator.eq": ast.Eq, "operator.ne": ast.NotEq, "operator.lt": ast.Lt,
+            "operator.le": ast.LtE, "operator.gt": ast.Gt, "operator.ge": ast.GtE}
+CALL_DIFFERENT = {"math.fmod": "keeps the sign of the dividend, IC10 mod does not", "math.remainder": "rounds to nearest, IC10 mod does not",
+                  "operator.floordiv": "floors, IC10 div does not", "divmod": "returns a pair", "math.copysign": "not an IC10 operator",
+                  "math.hypot": "not an IC10 operator", "math.ldexp": "not a shift on doubles", "math.log": "two-argument log is not an IC10 operator"}
+
+
 def _strip(e, params):
     """Remove coercion wrappers: _e(x), int(_e(x)), float(x), bool(x) -> parameter name or None."""
     depth = 0
@@ -69,6 +79,15 @@ def evaluator_shape(lam: ast.Lambda):
         l, wl = _strip(b.args[0], params)
         r, wr = _strip(b.args[1], params)
         return ("bin", b.func.id, l, r, wl + wr)
+    if isinstance(b, ast.Call) and len(b.args) == 2 and not b.keywords:
+        # a library function instead of an operator
+        fname = norm(b.func).replace('__import__("math")', "math").replace("__import__('math')", "math")
+        l, wl = _strip(b.args[0], params)
+        r, wr = _strip(b.args[1], params)
+        if fname in CALL_SEM:
+            return ("bin", CALL_SEM[fname], l, r, wl + wr)
+        if fname in CALL_DIFFERENT:
+            return ("bin", "call " + fname + " (" + CALL_DIFFERENT[fname] + ")", l, r, wl + wr)
     return None
 
 
